@@ -114,10 +114,13 @@ def lines_for(log, loose, result):
         elif k == "data":
             lines.append("mix data %s" % enc(rec["text"]))
             exp.append(None)
-        elif k in ("charref", "entityref"):
-            lines.append("mix unmodelled-event")
+        elif k == "charref":
+            # stage 6: references as the loose back end delivers them
+            lines.append("mix cref %s" % enc(rec["ref"]))
             exp.append(None)
-            break
+        elif k == "entityref":
+            lines.append("mix eref %s %d %s" % (enc(rec["ref"]), 1 if rec.get("found") else 0, enc(rec.get("text") or "")))
+            exp.append(None)
         i += 1
     lines.append("mix dump")
     if not isinstance(result, Exception) and loose and not (result.get("feed") or result.get("entries") or result.get("version")):
